@@ -332,3 +332,28 @@ Definition live_proc (r : klive) : kproc :=
 Definition spec_live (r : klive) : list res :=
   [RList (Val (spec_cmdline (lv_cmd r))); RDict (Val (spec_env (e_items (lv_env r))));
    RBytes (Val (l_path (lv_exe r))); RBytes (Val (l_path (lv_cwd r))); RBytes (Val (spec_name (live_proc r)))].
+
+(* ------------------------------------------------------------ large argument vectors and environments, compactly described
+   (the harness sends these descriptors; they are expanded here, so that case terms stay small
+   while /proc/<pid>/cmdline and environ grow far beyond any read buffer) *)
+Record bgroup := { g_unit : bytes; g_n : nat; g_tail : bytes; g_times : nat }.
+Definition big_arg (g : bgroup) : bytes := concat (repeat (g_unit g) (g_n g)) ++ g_tail g.
+Definition expand_args (gs : list bgroup) : list bytes :=
+  concat (map (fun g => repeat (big_arg g) (g_times g)) gs).
+Definition group_ok (g : bgroup) : bool := nul_free (g_unit g) && nul_free (g_tail g).
+
+Fixpoint dec_fuel (fuel : nat) (z : Z) : bytes :=
+  match fuel with
+  | O => []
+  | S f => if z <? 10 then [48 + z] else dec_fuel f (z / 10) ++ [48 + z mod 10]
+  end.
+Definition dec_of_nat (n : nat) : bytes := dec_fuel 20 (Z.of_nat n).
+(* variables  <prefix><index>=<value>  for index = start .. start+times-1 *)
+Record egroup := { eg_prefix : bytes; eg_value : bgroup }.
+Definition expand_egroup (start : nat) (g : egroup) : list eitem :=
+  map (fun i => EKV (eg_prefix g ++ dec_of_nat i) (big_arg (eg_value g))) (seq start (g_times (eg_value g))).
+Fixpoint expand_env (start : nat) (gs : list egroup) : list eitem :=
+  match gs with
+  | [] => []
+  | g :: r => expand_egroup start g ++ expand_env (start + g_times (eg_value g)) r
+  end.
